@@ -44,6 +44,13 @@ def static_modules(pkg_dir):
     return out
 
 
+def without_leftovers(mods, decls):
+    """Module files below _generated that no declaration of the specification accounts for (what an earlier
+    revision left behind in the output directory) are not modules of this package."""
+    declared = {d["module"] for d in decls}
+    return {m: f for m, f in mods.items() if "._generated." not in m or f.endswith("__init__.py") or m in declared}
+
+
 def defined_names(modname, path, mod):
     """Public names a hand-written module defines: __all__ if declared, else its own classes/functions
     plus top-level assigned constants."""
@@ -89,6 +96,8 @@ def main():
         print(json.dumps({"problems": problems, "counts": counts}))
         return
     mods = static_modules(os.path.join(pkg_parent, "eolib"))
+    counts["leftover_files_ignored"] = len(mods) - len(without_leftovers(mods, decls))
+    mods = without_leftovers(mods, decls)
     # (a) every documented dotted path is reachable by attribute access and is the module the import system resolves
     for dotted in sorted(mods):
         if dotted == "eolib":
